@@ -150,6 +150,10 @@ def order_family(n, quick, deep=False):
     leaves = ["Variable", "IntegerLiteral"]
     defs = ["IntegerLiteral", "Variable", "Sum", "Lambda", "Application"]
     body = ["Variable", "Application"] if quick else ["Variable", "Application", "Sum"]
+    if deep:
+        # functions whose body computes with group members, called by non-value members
+        defs = ["IntegerLiteral", "Lambda", "Application"]
+        body = ["Variable"]
 
     def alpha(node):
         if node.depth == 1:
@@ -163,9 +167,9 @@ def order_family(n, quick, deep=False):
             if node.slot == 0:
                 return leaves + ["Integer"]
             if deep and node.parent.slot != 2 * n:
-                return leaves + ["Sum", "Application"]      # only under a Lambda, see DeepOrderSpace
+                return leaves + ["Sum"]      # only under a Lambda, see DeepOrderSpace
             return leaves
-        return leaves
+        return ["Variable"] if deep else leaves
     return alpha
 
 
